@@ -157,6 +157,13 @@ func (fa *FactAnalysis) transfer(s FactSet, n ast.Node) FactSet {
 			}
 		}
 	}
+	// gen: v := x.f (snapshot of a field chain): v is the chain until either is written
+	if v, rhs, ok := fa.p.snapshotAlias(fa.f, n); ok {
+		id := unparen(n.(*ast.AssignStmt).Lhs[0])
+		k := "alias(" + fa.p.Canon(id) + "=" + fa.p.Canon(rhs) + ")"
+		_ = v
+		s[k] = Fact{Key: k, Val: true, Op: "alias", X: id, Y: rhs, deps: fa.p.MentionsOf(id, rhs)}
+	}
 	// gen: x = const
 	if as, ok := n.(*ast.AssignStmt); ok && (as.Tok == token.ASSIGN || as.Tok == token.DEFINE) && len(as.Lhs) == len(as.Rhs) {
 		for i, l := range as.Lhs {
@@ -204,6 +211,9 @@ func (fa *FactAnalysis) run() {
 			cand := out.clone()
 			for _, f := range fa.p.FactsOfCond(e.Cond, e.Val) {
 				cand[f.Key] = f
+				for _, g := range fa.p.aliasedFacts(out, f) {
+					cand[g.Key] = g
+				}
 			}
 			// what a flag variable implies is known on this edge whatever was known before
 			for _, f := range fa.p.flagFacts(fa.f, e.Cond, e.Val, 0, false) {
@@ -309,4 +319,143 @@ func (p *Prog) isNilExpr(e ast.Expr) bool {
 		return isNil
 	}
 	return false
+}
+
+// snapshotAlias: n is "v := x.f.g" / "v = x.f.g" — a plain field chain rooted in a
+// variable, v a local of this function (not a parameter, not captured-and-assigned
+// by a literal, address never taken). Until v, the root or a field of the chain is
+// written, a test of v is a test of the chain: naming a snapshot is not a different
+// condition.
+func (p *Prog) snapshotAlias(f *Func, n ast.Node) (*types.Var, ast.Expr, bool) {
+	as, ok := n.(*ast.AssignStmt)
+	if !ok || len(as.Lhs) != 1 || len(as.Rhs) != 1 || (as.Tok != token.DEFINE && as.Tok != token.ASSIGN) {
+		return nil, nil, false
+	}
+	id, ok := unparen(as.Lhs[0]).(*ast.Ident)
+	if !ok || id.Name == "_" {
+		return nil, nil, false
+	}
+	v, isVar := p.ObjOf(id).(*types.Var)
+	if !isVar || v.IsField() || v.Pkg() == nil || v.Parent() == v.Pkg().Scope() {
+		return nil, nil, false
+	}
+	root := f.Root()
+	if root.Body == nil || v.Pos() < root.Body.Pos() || p.addrTaken(root, v) {
+		return nil, nil, false
+	}
+	rhs := unparen(as.Rhs[0])
+	if _, isSel := rhs.(*ast.SelectorExpr); !isSel {
+		return nil, nil, false
+	}
+	for x := rhs; ; {
+		switch y := unparen(x).(type) {
+		case *ast.SelectorExpr:
+			if fv, ok := p.ObjOf(y.Sel).(*types.Var); !ok || !fv.IsField() {
+				return nil, nil, false
+			}
+			x = y.X
+			continue
+		case *ast.Ident:
+			rv, ok := p.ObjOf(y).(*types.Var)
+			if !ok || rv == v {
+				return nil, nil, false
+			}
+			return v, rhs, true
+		}
+		return nil, nil, false
+	}
+}
+
+var addrTakenMemo = map[*Func]map[*types.Var]bool{}
+
+// addrTaken: &v appears, or v is assigned inside a function literal other than the one
+// that declares it, somewhere in the root function.
+func (p *Prog) addrTaken(root *Func, v *types.Var) bool {
+	m, ok := addrTakenMemo[root]
+	if !ok {
+		m = map[*types.Var]bool{}
+		addrTakenMemo[root] = m
+		if root.Body != nil {
+			var lits []*ast.FuncLit
+			mark := func(e ast.Expr, always bool) {
+				if x, ok := unparen(e).(*ast.Ident); ok {
+					if o, ok := p.ObjOf(x).(*types.Var); ok {
+						inner := false
+						if len(lits) > 0 {
+							l := lits[len(lits)-1]
+							inner = o.Pos() < l.Pos() || o.Pos() > l.End()
+						}
+						if always || inner {
+							m[o] = true
+						}
+					}
+				}
+			}
+			var visit func(n ast.Node) bool
+			visit = func(n ast.Node) bool {
+				switch x := n.(type) {
+				case *ast.FuncLit:
+					lits = append(lits, x)
+					ast.Inspect(x.Body, visit)
+					lits = lits[:len(lits)-1]
+					return false
+				case *ast.UnaryExpr:
+					if x.Op == token.AND {
+						mark(x.X, true)
+					}
+				case *ast.AssignStmt:
+					if x.Tok != token.DEFINE {
+						for _, l := range x.Lhs {
+							mark(l, false)
+						}
+					}
+				case *ast.IncDecStmt:
+					mark(x.X, false)
+				}
+				return true
+			}
+			ast.Inspect(root.Body, visit)
+		}
+	}
+	return m[v]
+}
+
+// aliasedFacts: the same fact stated about the field chain a tested local is a live
+// snapshot of (alias facts in s).
+func (p *Prog) aliasedFacts(s FactSet, f Fact) []Fact {
+	if f.Op != "==" && f.Op != "truth" {
+		return nil
+	}
+	chainOf := func(e ast.Expr) ast.Expr {
+		id, ok := unparen(e).(*ast.Ident)
+		if !ok {
+			return nil
+		}
+		o := p.ObjOf(id)
+		for _, a := range s {
+			if a.Op == "alias" {
+				if aid, ok := a.X.(*ast.Ident); ok && p.ObjOf(aid) == o {
+					return a.Y
+				}
+			}
+		}
+		return nil
+	}
+	var out []Fact
+	switch f.Op {
+	case "==":
+		if c := chainOf(f.X); c != nil {
+			out = append(out, p.eqFact(c, f.Y, f.Val))
+		}
+		if f.Y != nil {
+			if c := chainOf(f.Y); c != nil {
+				out = append(out, p.eqFact(f.X, c, f.Val))
+			}
+		}
+	case "truth":
+		if c := chainOf(f.X); c != nil {
+			out = append(out, p.factsOfExpr(c, f.Val)...)
+		}
+	}
+	return out
 }
